@@ -7,7 +7,7 @@ import json, os, shutil, subprocess, sys, time
 from concurrent.futures import ThreadPoolExecutor
 
 VERIF = os.path.dirname(os.path.dirname(os.path.abspath(__file__)))
-ROOT = '/tmp/seedscratch'
+ROOT = '/tmp/seedscratch_%d' % os.getpid()
 
 
 def sh(cmd, cwd=None, timeout=7200, env=None):
